@@ -6,7 +6,6 @@ From V.model Require Import Base Deb822Lex Deb822Parse Grammar Lossy LossySpec D
 From V.model Require RelLex RelParse RelAcc RelGrammar RelWrap RelWrapSpec.
 From V.proofs Require Import BaseP GrammarLexP GrammarParseP GrammarAccP Deb822EditP LiveDocP LiveParaP Deb822WrapP Deb822WrapInstP.
 From V.proofs Require RelGrammarLexP RelWrapP RelWrapGrammarP.
-Set Default Timeout 60.
 
 (* ---------------------------------------------------------------- the canonical text is one line *)
 Module RelShape.
